@@ -179,9 +179,12 @@ def fault_class(p):
     return "+".join(f"{f['kind']}@{f['where']}/{f['at']}" for f in fl)
 
 
-def validate(ctx, jobs, traces, mech, invariants, normalise, what, max_report=5):
+def validate(ctx, jobs, traces, mech, invariants, normalise, what, max_report=5, diagnose_spec=None):
     """Validate recorded traces; report each rejected one as a violation (verdict sources
-    2 and 3).  Returns the set of accepted indices."""
+    2 and 3).  Returns the set of accepted indices.
+    diagnose_spec (optional): name of a behaviour specification of the trace module used ONLY when a rejected trace is
+    re-run alone for its diagnosis (e.g. one that follows the implementation one step past a forbidden action so that
+    TLC reports the clause that is false there); acceptance is always decided with TSpec."""
     norm = [normalise(t) for t in traces]
     cfg = trace_cfg(mech, invariants)
     accepted, r = ctx.validate_traces("TdglRunTrace", norm, cfg, name=f"TdglRunTrace[{what}]")
@@ -199,7 +202,8 @@ def validate(ctx, jobs, traces, mech, invariants, normalise, what, max_report=5)
         if reported >= max_report and not any(core.finding_matches(f, fkey) for f in ctx.findings):
             ctx.cov["further_rejected_traces_not_diagnosed"] = ctx.cov.get("further_rejected_traces_not_diagnosed", 0) + 1
             continue
-        far, violated, tail = ctx.diagnose_trace("TdglRunTrace", norm[n], cfg)
+        dcfg = cfg if diagnose_spec is None else model_cfg(TRACE_BOUNDS, mech, ["Accepted"] + list(invariants), spec=diagnose_spec)
+        far, violated, tail = ctx.diagnose_trace("TdglRunTrace", norm[n], dcfg)
         evs = norm[n]["ev"]
         clause = ",".join(violated) if violated else "no-matching-action"
         at = evs[far - 1] if 0 < far <= len(evs) else None
